@@ -76,7 +76,7 @@ Definition sel (t : tag) (o : list (tag * N)) : list N :=
   map snd (filter (λ x, x.1 = t) o).
 
 (* ---------------------------------------------------------------- multidict (felix/multidict) *)
-Definition md := gmap N (gset N).
+Notation md := (gmap N (gset N)).
 Definition md_get (m : md) (k : N) : gset N := default ∅ (m !! k).
 Definition md_put (k v : N) (m : md) : md := <[k := {[v]} ∪ md_get m k]> m.
 Definition md_discard (k v : N) (m : md) : md :=
